@@ -821,6 +821,8 @@ def _b_abs(x):
 
 
 def _b_min(*a, **k):
+    if len(a) == 1 and hasattr(a[0], "__sym_minmax__"):
+        return a[0].__sym_minmax__("min")
     if len(a) == 1:
         a = list(a[0])
     if any(isinstance(x, SV) for x in a):
@@ -832,6 +834,8 @@ def _b_min(*a, **k):
 
 
 def _b_max(*a, **k):
+    if len(a) == 1 and hasattr(a[0], "__sym_minmax__"):
+        return a[0].__sym_minmax__("max")
     if len(a) == 1:
         a = list(a[0])
     if any(isinstance(x, SV) for x in a):
@@ -851,6 +855,7 @@ def _b_sum(xs, start=0):
 
 def _b_isinstance(x, t):
     ts = t if isinstance(t, tuple) else (t,)
+    ts = tuple(_TYPE_OF_BUILTIN.get(getattr(tt, "__name__", None), tt) if not isinstance(tt, type) else tt for tt in ts)
     hook = getattr(x, "__sym_isinstance__", None)
     if hook is not None:
         return hook(ts)
@@ -890,6 +895,12 @@ def _b_str(x=""):
     return str(x)
 
 
+def _b_list(x=()):
+    if type(x).__name__ == "SymRange":
+        return x
+    return list(x)
+
+
 def _b_sorted(xs, **k):
     if hasattr(xs, "sorted_names"):
         return xs.sorted_names()
@@ -899,10 +910,12 @@ def _b_sorted(xs, **k):
     return sorted(xs, **k)
 
 
+_TYPE_OF_BUILTIN = {"_b_list": list, "_b_int": int, "_b_float": float, "_b_str": str}
+
 BUILTINS = {
     "len": _b_len, "int": _b_int, "float": _b_float, "round": _b_round, "abs": _b_abs, "min": _b_min, "max": _b_max,
     "sum": _b_sum, "all": sym.s_all, "any": sym.s_any, "isinstance": _b_isinstance, "range": _b_range, "str": _b_str,
-    "sorted": _b_sorted, "list": list, "tuple": tuple, "dict": dict, "set": set, "zip": zip, "enumerate": enumerate,
+    "sorted": _b_sorted, "list": _b_list, "tuple": tuple, "dict": dict, "set": set, "zip": zip, "enumerate": enumerate,
     "bool": lambda x=False: (SB(sym.to_bool(x)) if isinstance(x, (SV, SB)) else bool(x)), "reversed": reversed,
     "True": True, "False": False, "None": None, "type": type, "map": map, "filter": filter, "hasattr": hasattr,
     "ValueError": ValueError, "TypeError": TypeError, "KeyError": KeyError, "IndexError": IndexError,
